@@ -111,3 +111,45 @@ pub fn gen_proc(r: &mut Rng) -> ProcSpec {
     }
     p
 }
+
+/// One run through the THIRD public entry point, the library function
+/// `tauri_typegen::generate_from_config` (no cache record, no dependency report): the
+/// configuration is handed over as a value, with the paths spelled as the set-up spells them.
+pub fn run_library(env: &mut Env, w: &World, setup: &Setup, cfg: &Cfg, spec: ProcSpec, verbose: bool) -> RunOut {
+    let cwd = w.cwd(setup);
+    let call = library_call(w, setup, cfg, verbose);
+    env.run(w, &cwd, spec, call)
+}
+
+/// The call `run_library` makes, for checks that start processes themselves.
+pub fn library_call(w: &World, setup: &Setup, cfg: &Cfg, verbose: bool) -> Call {
+    let project = w.project_arg(setup);
+    let out = w.output_arg(setup);
+    let mode = cfg.mode.clone();
+    let mappings: BTreeMap<String, String> = cfg.mappings.clone();
+    let include_private = cfg.include_private;
+    let visualize = cfg.visualize;
+    let param_case = cfg.param_case.clone();
+    let field_case = cfg.field_case.clone();
+    Call::Func(Box::new(move || {
+        let mut config = tauri_typegen::GenerateConfig { project_path: project, output_path: out, validation_library: mode, ..Default::default() };
+        if !mappings.is_empty() {
+            config.type_mappings = Some(mappings.into_iter().collect());
+        }
+        config.include_private = include_private;
+        if verbose {
+            config.verbose = Some(true);
+        }
+        if visualize {
+            // (the library writes no dependency report, but the setting is part of the record)
+            config.visualize_deps = Some(true);
+        }
+        if let Some(p) = param_case {
+            config.default_parameter_case = p;
+        }
+        if let Some(f) = field_case {
+            config.default_field_case = f;
+        }
+        tauri_typegen::generate_from_config(&config).map(|_| ()).map_err(|e| e.to_string())
+    }))
+}
